@@ -118,6 +118,8 @@ class Box:
 
                 pad_top = max(0, 0 - new_start_coord[-3]) + skirt_top_remainder
                 new_start_coord[-3] = max(new_start_coord[-3], 0)
+                # First row of the first kernel window
+                k_start = new_start_coord[-3] - pad_top
 
                 if (new_end_coord[-3] * stride + skirt[2]) > (ifm_height * upscaling_factor):
                     # pad_bottom is calculated based the diff between the end position of the weight kernel,
@@ -126,12 +128,15 @@ class Box:
                         # Special case for Transpose Convolution with VALID padding.
                         pad_bottom = original_end_coord[-3] - (ifm_height * upscaling_factor)
                     else:
-                        k_start = new_start_coord[-3] - pad_top
                         pad_bottom = max(0, k_start + total_stride + k_dilated_height - (ifm_height * upscaling_factor))
 
                 # Adjust for upscaling
                 new_start_coord[-3] = max(new_start_coord[-3] // upscaling_factor, 0)
                 new_end_coord[-3] = new_end_coord[-3] * stride + skirt[2] + (skirt[2] % upscaling_factor)
+                if upscaling_factor == 1:
+                    # Not beyond the last row of the last kernel window: with a stride larger than 1 the skirt is more than
+                    # that window needs, and rows that are only claimed would have to be kept in a rolling buffer too
+                    new_end_coord[-3] = min(new_end_coord[-3], k_start + total_stride + k_dilated_height)
                 new_end_coord[-3] = max(min(new_end_coord[-3] // upscaling_factor, ifm_height), 1)
 
         # Wrap the IFMs of broadcasted binary elementwise ops
